@@ -52,6 +52,8 @@ def _miri_classify(ck, r, what):
 def setup():
     vlib.cargo_build(CRATE, "h_ring-debug")
     vlib.cargo_build(CRATE, "h_ring-release", release=True)
+    argv, env, cwd = vlib.miri_cmd(CRATE, "h_ring-miri", "h_ring", ["rand", 0, 0, 0, 1], [])
+    vlib.run_one(argv, env=env, cwd=cwd, timeout=1800)
 
 
 def run(ck, replay=None):
@@ -78,12 +80,12 @@ def run(ck, replay=None):
             if quick:
                 length = 7
             else:
-                length = 10 if (c[5], c[6]) == (0, 0) else 9
+                length = 10 if (c[5], c[6]) == (0, 0) else 8
             jobs.append(("%s exh len=%d cfg=%s" % (prof, length, c),
                          dict(argv=[exe, "exh", str(ck.seed), str(length)] + [str(x) for x in c], timeout=3600)))
     # random long interleavings, systematic over (size, cq size, sq start, cq start)
     nshard = 16
-    runs = 40_000 if quick else 400_000
+    runs = 40_000 if quick else 250_000
     for prof, exe in (("debug", dbg), ("release", rel)):
         for i in range(nshard):
             jobs.append((prof + " rand shard %d" % i,
@@ -101,7 +103,7 @@ def run(ck, replay=None):
 
     # Miri sample: same random generator, few runs per shard (exact-size allocations, no red zones)
     mshards = 16
-    mruns = 15 if quick else 150
+    mruns = 10 if quick else 100
     mj = []
     for i in range(mshards):
         argv, env, cwd = vlib.miri_cmd(CRATE, "h_ring-miri", "h_ring",
@@ -123,7 +125,7 @@ def run(ck, replay=None):
         "every sequence of exactly %s calls over {get slot+fill, flush, reap, kernel consumes 1, kernel posts 1} "
         "followed by a drain, ring sizes 1 and 2 (cq = 2x), head start in {0, 2^31-1, u32::MAX-k for k<=2*entries} "
         "independently for SQ and CQ, prefilled (0,0),(full,0),(0,full),(1,1); %d configurations x debug/release"
-        % ("7" if quick else "10 (empty start) / 9 (prefilled start)", len(cfgs)))
+        % ("7" if quick else "10 (empty start) / 8 (prefilled start)", len(cfgs)))
     ck.assume("the kernel side is simulated in the same thread: interleaving is at call granularity, as the property fixes it; "
               "memory-ordering effects between real threads are not observable here")
     ck.assume("sq_array is initialised to the identity as rusl::io_uring::setup_io_uring does; ring sizes are powers of two (1,2,4,8; cq = n or 2n)")
